@@ -180,7 +180,11 @@ def prove(built, fn, verbose=False, trace=False, keep=False, case=None):
     rest = [p_ for p_ in props if '.postcondition.' not in p_]
     groups = [[h] for h in heavy]
     if rest:
-        groups.append(rest)
+        nchunk = 4 if (sp.timeout or case) else 1      # heavy proofs: the automatic checks in four solver instances
+        for k in range(nchunk):
+            ch = rest[k::nchunk]
+            if ch:
+                groups.append(ch)
     tmo = max(TIMEOUT, sp.timeout or 0)
     def solve(group):
         args = []
